@@ -151,6 +151,11 @@ class JointRecurrenceNetwork(JointRecurrencePlot, Network):
             raise ValueError("Delay value (lag) must not exceed length of \
                              time series!")
 
+    def __cache_state__(self):
+        return (JointRecurrencePlot.__cache_state__(self)
+                + (getattr(self, "directed", None),
+                   getattr(self, "_mut_A", 0)))
+
     def __str__(self):
         """
         Returns a string representation.
